@@ -484,6 +484,42 @@ func (ip *Interp) runClosure(fn *ssa.Function, args []any, binds []any, depth in
 				delete(env, x)
 			case *ssa.Slice:
 				base, ok := get(x.X)
+				// s[lo:hi] on a known string with known bounds
+				if sc, isC := base.(constant.Value); ok && isC && sc.Kind() == constant.String && x.Max == nil {
+					str := constant.StringVal(sc)
+					lo, hi, known := int64(0), int64(len(str)), true
+					if x.Low != nil {
+						lv, lok := get(x.Low)
+						lc, isK := lv.(constant.Value)
+						if !lok || !isK || lc.Kind() != constant.Int {
+							known = false
+						} else {
+							lo, _ = constant.Int64Val(lc)
+						}
+					}
+					if x.High != nil {
+						hv, hok := get(x.High)
+						hc, isK := hv.(constant.Value)
+						if !hok || !isK || hc.Kind() != constant.Int {
+							known = false
+						} else {
+							hi, _ = constant.Int64Val(hc)
+						}
+					}
+					if known {
+						if lo < 0 || hi > int64(len(str)) || lo > hi {
+							ip.dirty = true
+							if ip.stuck == "" {
+								ip.stuck = "string slice bounds out of range at " + ip.m.InstrPos(x)
+							}
+							return nil, false
+						}
+						env[x] = constant.MakeString(str[lo:hi])
+						continue
+					}
+					delete(env, x)
+					continue
+				}
 				if ok && x.Low == nil && x.High == nil && x.Max == nil {
 					if ad, isA := base.(iAddr); isA && ad.idx == -1 {
 						env[x] = iSlice{ad.arr, 0, len(ad.arr.elems)}
@@ -736,7 +772,7 @@ func (ip *Interp) runClosure(fn *ssa.Function, args []any, binds []any, depth in
 					}
 				}
 				delete(env, x)
-			case *ssa.Index, *ssa.SliceToArrayPointer, *ssa.MakeChan, *ssa.Select:
+			case *ssa.SliceToArrayPointer, *ssa.MakeChan, *ssa.Select:
 				delete(env, x.(ssa.Value))
 			case *ssa.DebugRef:
 			case *ssa.Convert:
@@ -767,9 +803,47 @@ func (ip *Interp) runClosure(fn *ssa.Function, args []any, binds []any, depth in
 				} else {
 					delete(env, x)
 				}
+			case *ssa.Index:
+				// s[i] on a known string
+				if sv, ok := get(x.X); ok {
+					if sc, isC := sv.(constant.Value); isC && sc.Kind() == constant.String {
+						if kv, kok := get(x.Index); kok {
+							if kc, isK := kv.(constant.Value); isK && kc.Kind() == constant.Int {
+								str := constant.StringVal(sc)
+								if i, exact := constant.Int64Val(kc); exact && i >= 0 && int(i) < len(str) {
+									env[x] = constant.MakeInt64(int64(str[i]))
+									continue
+								}
+								ip.dirty = true
+								if ip.stuck == "" {
+									ip.stuck = "string index out of range at " + ip.m.InstrPos(x)
+								}
+								return nil, false
+							}
+						}
+					}
+				}
+				delete(env, x)
 			case *ssa.Lookup:
 				key, kok := get(x.Index)
 				done := false
+				// s[i] on a known string
+				if sv, ok := get(x.X); ok && kok && !x.CommaOk {
+					if sc, isC := sv.(constant.Value); isC && sc.Kind() == constant.String {
+						if kc, isK := key.(constant.Value); isK && kc.Kind() == constant.Int {
+							str := constant.StringVal(sc)
+							if i, exact := constant.Int64Val(kc); exact && i >= 0 && int(i) < len(str) {
+								env[x] = constant.MakeInt64(int64(str[i]))
+								continue
+							}
+							ip.dirty = true
+							if ip.stuck == "" {
+								ip.stuck = "string index out of range at " + ip.m.InstrPos(x)
+							}
+							return nil, false
+						}
+					}
+				}
 				if mv, ok := get(x.X); ok && kok {
 					if mp, isM := mv.(*iMap); isM && mp.vals != nil {
 						if ks, _, okk := mapKey(key); okk {
@@ -1009,6 +1083,51 @@ func (ip *Interp) runClosure(fn *ssa.Function, args []any, binds []any, depth in
 					continue
 				}
 				if sc != nil {
+					// slices.ContainsFunc / IndexFunc on a known slice with a module function value: the predicate is
+					// evaluated element by element
+					if name := fnFullName(sc); (name == "slices.ContainsFunc" || name == "slices.IndexFunc") && len(args) == 2 {
+						if sl, isSl := args[0].(iSlice); isSl {
+							var pf *ssa.Function
+							var pbinds []any
+							switch fv := args[1].(type) {
+							case *iClosure:
+								pf, pbinds = fv.fn, fv.binds
+							case iFn:
+								pf = fv.fn
+							}
+							if pf != nil && pf.Blocks != nil {
+								found, known := -1, true
+								for i, e := range sl.arr.elems[sl.lo:sl.high] {
+									r, ok := ip.runClosure(pf, []any{e}, pbinds, depth+1)
+									rc, isC := r.(constant.Value)
+									if ip.stopped {
+										return nil, false
+									}
+									if !ok || !isC || rc.Kind() != constant.Bool {
+										known = false
+										break
+									}
+									if constant.BoolVal(rc) {
+										found = i
+										break
+									}
+								}
+								if known {
+									if name == "slices.ContainsFunc" {
+										env[x] = constant.MakeBool(found >= 0)
+									} else {
+										env[x] = constant.MakeInt64(int64(found))
+									}
+									continue
+								}
+							}
+						}
+						if args[0] == nil {
+							// an unknown slice: the result is unknown, nothing is written
+							delete(env, x)
+							continue
+						}
+					}
 					if res, ok := libModel(fnFullName(sc), args); ok {
 						env[x] = res
 						continue
